@@ -112,5 +112,5 @@ func gen(t *rapid.T) Case {
 }
 
 func TestExec(t *testing.T) {
-	vfrun.Run(t, vfrun.Prop[Case]{Property: "C01", Name: "TestExec", Gen: gen, Check: check}, vfrun.N(4000, 400000))
+	vfrun.Run(t, vfrun.Prop[Case]{Property: "C01", Name: "TestExec", Gen: gen, Check: check}, vfrun.N(16000, 600000))
 }
